@@ -1026,7 +1026,7 @@ fn main() {
 	};
 
 	// ---- the pool of real transactions
-	let nfam = if thorough { 40 } else { 12 };
+	let nfam = if thorough { 60 } else { 12 };
 	for f in 0..nfam {
 		let ntx = w.rng.range(2, 5) as usize;
 		let (chain_prob, conflicts) = match f % 4 {
@@ -1039,7 +1039,7 @@ fn main() {
 	}
 	let base_len = w.pool.len();
 	// multi-kernel operands: aggregates of two pool txs of the same family
-	let nmk = if thorough { 20 } else { 6 };
+	let nmk = if thorough { 40 } else { 6 };
 	for _ in 0..nmk {
 		let a = w.rng.below(base_len as u64) as usize;
 		let cands: Vec<usize> = (0..base_len)
@@ -1071,7 +1071,7 @@ fn main() {
 	));
 
 	// ---- cases
-	let ncases = if thorough { 400 } else { 100 };
+	let ncases = if thorough { 1500 } else { 100 };
 	let mut case_no = 0u64;
 	for ci in 0..ncases {
 		let kind = ci % 4;
